@@ -16,7 +16,7 @@ func c08N(tier string) int {
 	if tier == "thorough" {
 		return 1000000
 	}
-	return 12000
+	return 60000
 }
 
 func init() {
